@@ -16,6 +16,7 @@ import (
 	"encoding/base64"
 	"encoding/json"
 	"fmt"
+	"runtime"
 	"strconv"
 	"strings"
 
@@ -87,6 +88,50 @@ func workerInit() {
 }
 
 // ---------------------------------------------------------------- worker side
+
+// baseline: what a VALID minimal exchange (a hello, a small packet of an unregistered device,
+// a ping and a small packet of the registered device) allocates at most under the profile,
+// measured in this worker.
+var baselines = map[string]uint64{}
+
+func baseline(dec string) uint64 {
+	if !strings.HasPrefix(dec, "hs:") && !strings.HasPrefix(dec, "hr:") {
+		return 0
+	}
+	if b, ok := baselines[dec[3:]]; ok {
+		return b
+	}
+	p := profileByName(dec[3:])
+	if p == nil {
+		return 0
+	}
+	data := &com.Packet{ID: 0xC0, Job: 9, Device: devA()}
+	data.Write(pat(16, 1))
+	var best uint64
+	for _, v := range []struct {
+		kind string
+		n    *com.Packet
+	}{{"hs", c2.VerifC04Hello(devA(), false)}, {"hs", data}, {"hr", &com.Packet{ID: 0, Device: devA()}}, {"hr", data}} {
+		in, err := c2.VerifC04Encode(p.w, p.t, v.n)
+		if err != nil {
+			continue
+		}
+		in = append([]byte{}, in...)
+		for i := 0; i < 2; i++ {
+			var a, b runtime.MemStats
+			runtime.GC() // twice: sync.Pool contents survive one collection; the COLD cost is wanted
+			runtime.GC() // (pooled zlib/gzip writers and buffers are re-allocated after a collection)
+			runtime.ReadMemStats(&a)
+			decodeHandle(v.kind, p, in)
+			runtime.ReadMemStats(&b)
+			if d := b.TotalAlloc - a.TotalAlloc; d > best {
+				best = d
+			}
+		}
+	}
+	baselines[dec[3:]] = best
+	return best
+}
 
 func devA() device.ID { return devID(0x41) }
 func devB() device.ID { return devID(0x61) }
